@@ -569,7 +569,7 @@ func genCase(t *rapid.T, many bool) Case {
 				big = false
 			}
 		}
-		entries = append(entries, Entry{Path: p, Size: size, Perm: rapid.SampledFrom([]uint32{0o644, 0o600, 0o755, 0o444, 0o640}).Draw(t, "perm"),
+		entries = append(entries, Entry{Path: p, Size: size, Perm: rapid.SampledFrom([]uint32{0o644, 0o600, 0o755, 0o444, 0o640, 0o644, 0o600, 0, 0o001, 0o777}).Draw(t, "perm"),
 			Flag: rapid.SampledFrom([]string{"", "", "", "", "", "", "cont", "nul"}).Draw(t, "flag")})
 	}
 	// explicit directories: a random subset, the rest stay implicit
